@@ -103,7 +103,9 @@ PROPS["C12"] = dict(
     props_module="Props.C12",
     harness=[dict(sub="c12", profile="debug")],
     rule="all ordered pairs of segments with integer endpoints in {0..3}^2 (quick, 65536 pairs) / {0..4}^2 (thorough), "
-         "then random segments in [-50,50]^2 with a collinear-endpoint bias; curve queries on random f64 curves with "
+         "then random segments in [-50,50]^2 with a collinear-endpoint bias; degree-elevated f32 quadratics at small scale "
+         "(lattice x 2^-7..2^-10) against unit-direction lines where lyon's thresholds select the quadratic branch and the "
+         "discriminant is robustly positive (both crossings must be reported); curve queries on random f64 curves with "
          "constructed crossings; every cubic against the point curve at one of its own points, in both orders; line x "
          "quadratic with an exactly vanishing quadratic term (control point at the mean distance from a lattice line: 6000 / "
          "40000) through line_intersections_t / line_intersections / line_segment_intersections_t / the raised cubic; the "
